@@ -1,0 +1,125 @@
+//! Structural invariants of the store, the lock tree and the ls-subscriber tree
+//! (verification hook, cargo feature `verif`).
+
+use super::*;
+
+impl Store {
+    pub(crate) fn verif_invariants(&self, out: &mut Vec<String>) {
+        if !(self.data.is_empty() || self.data.is_clean()) {
+            out.push("store: data tree contains an empty branch".to_owned());
+        }
+        if self.data.value().is_some() {
+            out.push("store: root node has a value".to_owned());
+        }
+        let counted = Store::ncount_values(&self.data);
+        if counted != self.len {
+            out.push(format!(
+                "store: cached len {} != counted values {}",
+                self.len, counted
+            ));
+        }
+        if !(self.locks.is_empty() || self.locks.is_clean()) {
+            out.push("locks: lock tree contains an empty branch".to_owned());
+        }
+        let mut path = Vec::new();
+        self.verif_lock_node(&self.locks, &mut path, out);
+    }
+
+    fn verif_lock_node<'a>(
+        &self,
+        node: &'a LockNode,
+        path: &mut Vec<&'a str>,
+        out: &mut Vec<String>,
+    ) {
+        if let Some(lock) = node.value() {
+            let key = path.join("/");
+            let mut seen: Vec<ClientId> = Vec::new();
+            for (candidate, txs) in &lock.candidates {
+                if *candidate == lock.holder {
+                    out.push(format!("locks: holder of {key} is also queued for it"));
+                }
+                if seen.contains(candidate) {
+                    out.push(format!("locks: client queued twice for {key}"));
+                }
+                seen.push(*candidate);
+                if txs.is_empty() {
+                    out.push(format!("locks: queued client without pending request on {key}"));
+                }
+                if !self.verif_registered(candidate, path) {
+                    out.push(format!(
+                        "locks: client queued for {key} would not be removed when its session ends"
+                    ));
+                }
+            }
+            if !self.verif_registered(&lock.holder, path) {
+                out.push(format!(
+                    "locks: lock on {key} would not be released when its holder's session ends"
+                ));
+            }
+        }
+        if let Some(tree) = node.sub_tree() {
+            for (segment, child) in tree {
+                path.push(segment);
+                self.verif_lock_node(child, path, out);
+                path.pop();
+            }
+        }
+    }
+
+    fn verif_registered(&self, client_id: &ClientId, path: &[&str]) -> bool {
+        self.locked_keys.get(client_id).is_some_and(|paths| {
+            paths.iter().any(|p| {
+                p.len() == path.len() && p.iter().zip(path.iter()).all(|(a, b)| a == b)
+            })
+        })
+    }
+
+    /// (holder, queued clients in order) of every lock, by key.
+    pub(crate) fn verif_locks(&self) -> Vec<(String, ClientId, Vec<ClientId>)> {
+        fn walk<'a>(
+            node: &'a LockNode,
+            path: &mut Vec<&'a str>,
+            out: &mut Vec<(String, ClientId, Vec<ClientId>)>,
+        ) {
+            if let Some(lock) = node.value() {
+                out.push((
+                    path.join("/"),
+                    lock.holder,
+                    lock.candidates.iter().map(|(c, _)| *c).collect(),
+                ));
+            }
+            if let Some(tree) = node.sub_tree() {
+                for (segment, child) in tree {
+                    path.push(segment);
+                    walk(child, path, out);
+                    path.pop();
+                }
+            }
+        }
+        let mut out = Vec::new();
+        walk(&self.locks, &mut Vec::new(), &mut out);
+        out.sort();
+        out
+    }
+
+    /// ids of all ls subscribers in the subscriber tree with their parent path
+    pub(crate) fn verif_ls_subscribers(&self) -> Vec<(SubscriptionId, Vec<RegularKeySegment>)> {
+        fn walk(
+            node: &SubscribersNode,
+            path: &mut Vec<RegularKeySegment>,
+            out: &mut Vec<(SubscriptionId, Vec<RegularKeySegment>)>,
+        ) {
+            for s in &node.ls_subscribers {
+                out.push((s.id.clone(), path.clone()));
+            }
+            for (segment, child) in &node.tree {
+                path.push(segment.clone());
+                walk(child, path, out);
+                path.pop();
+            }
+        }
+        let mut out = Vec::new();
+        walk(&self.subscribers, &mut Vec::new(), &mut out);
+        out
+    }
+}
